@@ -225,6 +225,72 @@ fn pair_sequence<F: Family>(input: &Input, ctx: &mut Ctx) -> CaseResult {
     check_sequence::<F>(pkts, false, &mut st, ctx)
 }
 
+/// Histories on one thread: decodes that are abandoned half-way (future and state dropped while the
+/// transport is Pending, or the connection given up) interleaved with complete decodes of unrelated
+/// streams. A complete decode must not depend on what was abandoned before it.
+fn decode_history<F: Family>(input: &Input, ctx: &mut Ctx) -> CaseResult {
+    let mut t = Tape::new(input.tape());
+    let n = 2 + t.pick(5);
+    let mut abandoned = 0;
+    for i in 0..n {
+        let cfg = if t.chance(1, 8) { GenCfg::MEDIUM } else { GenCfg::SMALL };
+        let p = F::gen(&mut t, &cfg).map_err(|e| Violation::new(e.0))?;
+        let enc = match F::encode(&p) {
+            Ok(b) => b.as_ref().to_vec(),
+            Err(e) => viol!("encode of a valid packet failed: {:?}", e),
+        };
+        let op = if i + 1 == n { 0 } else { t.pick(4) };
+        if op >= 2 && enc.len() > 2 {
+            // deliver k bytes, then Pending for as long as we poll; drop everything
+            let k = 1 + t.pick(enc.len() - 1);
+            let mut steps = vec![Step::Chunk(k)];
+            for _ in 0..6 {
+                steps.push(Step::Pending);
+            }
+            let polls = 1 + t.pick(3);
+            if op == 2 {
+                let mut rd = ScriptedReader::new(&enc, &steps);
+                let r = sio::poll_n(F::decode_async(&mut rd), polls);
+                ensure!(r.is_none() || matches!(&r, Some(Ok(q)) if *q == p), "async decoder finished with a different result although only {} of {} bytes were delivered", k, enc.len());
+            } else {
+                let mut rd = ScriptedReader::new(&enc, &steps);
+                let mut state: GenericPollPacketState<F::Header> = GenericPollPacketState::default();
+                let r = sio::poll_n(GenericPollPacket::new(&mut state, &mut rd), polls);
+                ensure!(r.is_none(), "poll decoder finished although only {} of {} bytes were delivered", k, enc.len());
+            }
+            abandoned += 1;
+            ctx.label("abandoned-decode");
+            continue;
+        }
+        // complete decodes on all three front-ends
+        match F::decode(&enc) {
+            Ok(Some(q)) if q == p => {}
+            other => viol!("operation {} of a decoder history ({} abandoned before): blocking decoder returned {:?}, expected {}", i + 1, abandoned, other.map(|o| o.map(|q| fam::render(&q))), fam::render(&p)),
+        }
+        let steps = gen_steps(&mut t, enc.len(), 24);
+        let mut rd = ScriptedReader::new(&enc, &steps);
+        let (res, _) = sio::drive(F::decode_async(&mut rd), enc.len() + steps.len() + 8);
+        match res {
+            Ok(q) if q == p => {}
+            other => viol!("operation {} of a decoder history ({} abandoned before): async decoder returned {:?}, expected {}", i + 1, abandoned, other.map(|q| fam::render(&q)), fam::render(&p)),
+        }
+        let run = fam::dec_poll_scripted::<F>(&enc, &steps, t.u16() as u64, None, false);
+        match run.result {
+            Ok(ok) if ok.pkt == p && ok.total == enc.len() => {}
+            other => viol!("operation {} of a decoder history ({} abandoned before): poll decoder returned {:?}, expected {}", i + 1, abandoned, other.map(|q| fam::render(&q.pkt)), fam::render(&p)),
+        }
+        if abandoned > 0 {
+            ctx.label("complete-after-abandon");
+        }
+    }
+    if abandoned > 0 && ctx.nontrivial(fnv(format!("{:?}", input.tape()).as_bytes())) {
+        ctx.sample(|| format!("{} history of {} decode operations, {} abandoned", F::FAM.name(), n, abandoned));
+    }
+    Ok(())
+}
+
+pub const SUB_DH3: Sub = Sub { name: "c08.history.v3", f: decode_history::<V3> };
+pub const SUB_DH5: Sub = Sub { name: "c08.history.v5", f: decode_history::<V5> };
 pub const SUB_P3: Sub = Sub { name: "c08.pairs.v3", f: pair_sequence::<V3> };
 pub const SUB_P5: Sub = Sub { name: "c08.pairs.v5", f: pair_sequence::<V5> };
 pub const SUB_Z3: Sub = Sub { name: "c08.sized.v3", f: sized_sequence::<V3> };
@@ -233,7 +299,7 @@ pub const SUB_V3: Sub = Sub { name: "c08.sequence.v3", f: sequence::<V3> };
 pub const SUB_V5: Sub = Sub { name: "c08.sequence.v5", f: sequence::<V5> };
 
 pub fn subs() -> Vec<Sub> {
-    vec![SUB_V3, SUB_V5, SUB_Z3, SUB_Z5, SUB_P3, SUB_P5]
+    vec![SUB_V3, SUB_V5, SUB_Z3, SUB_Z5, SUB_P3, SUB_P5, SUB_DH3, SUB_DH5]
 }
 
 pub fn run(env: &mut Env) -> RunResult {
@@ -248,6 +314,10 @@ pub fn run(env: &mut Env) -> RunResult {
     let z = sizes.clone();
     env.run_enum(SUB_Z3, k, false, move |i| z[i as usize].clone())?;
     env.run_enum(SUB_Z5, k, false, move |i| sizes[i as usize].clone())?;
+    env.run_tapes(SUB_DH3, n / 4, 400)?;
+    env.run_tapes(SUB_DH5, n / 4, 600)?;
+    env.require("c08.history.v3", "complete-after-abandon");
+    env.require("c08.history.v5", "complete-after-abandon");
     // every ordered pair of packet types, with minimal and with generated contents
     let seeds = env.tier.sel(4u64, 24u64);
     let n3 = (V3::NTYPES * V3::NTYPES) as u64 * seeds;
